@@ -25,6 +25,9 @@ RULE = (
     "identical object (names are unique per case, so this detects rewritten copies, i.e. operations inserted "
     "upstream of a locked node).  Non-trivial = a round trip crossed >= 1 marker or backtracking met a locked node; "
     "distinct = (shape of trip / request, base skeleton tail, outcome)."
+    "  Every program is also built a second time (relations that compare equal but are distinct objects) and every "
+    "node of the first build is re-applied (reapply) to its twin's operand(s): the result must equal the twin and "
+    "contain the twin's locked nodes. "
 )
 ASSUMPTIONS = [
     "leaf and materialization names are unique within a case, so (type, name) identifies a locked node",
